@@ -19,7 +19,7 @@ func die(format string, a ...any) {
 
 type suite struct {
 	gen func(r *rng, n int, tier string) []string // case lines
-	run func(line string) string                 // observable of the implementation
+	run func(line string) string                  // observable of the implementation
 }
 
 var suites = map[string]*suite{}
